@@ -11,6 +11,7 @@ from ..consteval import UNKNOWN, Scope, fold, fold_in
 from ..mutate import B, M
 from ..symexec import Explorer
 from ..symexpr import canon, _fmt
+from .c13 import quaternion_rules
 
 sys.path.insert(0, os.path.join(os.path.dirname(os.path.dirname(os.path.dirname(os.path.abspath(__file__)))), 'oracles'))
 import firmware_layout as FW   # noqa: E402
@@ -31,7 +32,7 @@ EXPLANATION = (
     'send lock is taken (R4); the parting set-point of close_link is the all-zero set-point (R5).')
 ASSUMPTIONS = ['the firmware layout table is correct (written from the firmware packed structs; sources not available offline)',
                'struct.pack implements the standard little-endian packed encoding and raises struct.error on overflow']
-FLOORS = {'R1': 40, 'R2': 30, 'R2b': 1, 'R3': 8, 'R4': 8, 'R5': 1}
+FLOORS = {'R6': 9, 'R1': 40, 'R2': 30, 'R2b': 1, 'R3': 8, 'R4': 8, 'R5': 1}
 
 PVTXT = FW.PV
 
@@ -353,6 +354,9 @@ def check(ctx):
         rets = [norm(s.value) for s in walk_own(f.node) if isinstance(s, ast.Return) and s.value is not None]
         ctx.inst('R4', f, 'size-chain', rets == [want], '%s returns %s, expected %s' % (fn, rets, want))
     ctx.inst('R4', (ST, 'CRTPPacket'), 'max-size', fold_in(init, pkc.consts['MAX_DATA_SIZE']) == 30, 'MAX_DATA_SIZE must be 30')
+
+    # ---- R6: orientation codec used by the full-state set-point (shared rule, see C13.R3) ------
+    quaternion_rules(ctx, 'R6')
 
     # ---- R5: parting set-point ----------------------------------------------------------
     cl = m.func(CF, 'Crazyflie.close_link')
